@@ -44,7 +44,7 @@ func lagCases(r *vkit.Report) {
 		actors = 1
 	}
 	trials := r.Scale(420, 1200) // per actor and case
-	r.Cases("lag", r.Scale(10, 12), 1, func(c *vkit.Case) {
+	r.Cases("lag", r.Scale(10, 10), 1, func(c *vkit.Case) {
 		var fires atomic.Int64
 		xtime.VerifSetHook(func(point string) {
 			if point == "ticker.fire" {
